@@ -50,6 +50,13 @@ struct Scn {
     /// the target's echo handlers wait this long before every read: data the peer wrote sits unread
     /// in the target's receive buffer when the crash comes (0 = read eagerly)
     slow_ms: u64,
+    /// p1 uploads to t0 over a stream t0 never reads: the writer ends up parked on a full
+    /// window (connect at ms)
+    upload: Option<u64>,
+    /// t0 dials p1:7200 itself: (at ms after its start, think time between ping-pongs)
+    dials: Vec<(u64, u64)>,
+    /// Builder::enable_tokio_io, and the target's software uses the IO driver
+    tokio_io: bool,
     inject: Inject,
 }
 
@@ -66,6 +73,14 @@ enum Ev {
     InRead { c: usize },
     Pong { c: usize },
     BulkRead,
+    UpWrote,
+    /// p1 accepted a stream dialled by the target
+    PAccept { k: usize, peer: String },
+    PInRead { k: usize },
+    PGot { k: usize },
+    PUnblocked { k: usize, how: String },
+    /// target side of a dial
+    TDial { t: usize, inc: u32, ok: bool },
     Unblocked { c: usize, how: String },
     PingSent { id: u64, multicast: bool },
     PongRecv { id: u64 },
@@ -196,6 +211,44 @@ async fn target_program(log: Log<Ev>, t: usize, inc: u32, p: TProbe, s: Scn) -> 
             }
         });
     }
+    // the runtime of every incarnation is built the way the simulation was configured
+    let _io_pair = if s.tokio_io {
+        let (mut a, mut b) = tokio::net::UnixStream::pair()?;
+        a.write_all(b"x").await?;
+        let mut one = [0u8; 1];
+        b.read_exact(&mut one).await?;
+        Some((a, b))
+    } else {
+        None
+    };
+    // outgoing connections of the target itself
+    if t == 0 {
+        for (at, think) in s.dials.clone() {
+            let g = Guard::new(&gc);
+            let log = log.clone();
+            tokio::task::spawn_local(async move {
+                let _g = g;
+                tokio::time::sleep(Duration::from_millis(at)).await;
+                let Ok(mut st) = TcpStream::connect(("p1", 7200)).await else {
+                    log.push(Ev::TDial { t, inc, ok: false });
+                    return;
+                };
+                log.push(Ev::TDial { t, inc, ok: true });
+                let mut n = 0u64;
+                loop {
+                    if st.write_all(&n.to_le_bytes()).await.is_err() {
+                        return;
+                    }
+                    let mut b = [0u8; 8];
+                    if st.read_exact(&mut b).await.is_err() {
+                        return;
+                    }
+                    n += 1;
+                    tokio::time::sleep(Duration::from_millis(think)).await;
+                }
+            });
+        }
+    }
     loop {
         let (mut st, peer) = lis.accept().await?;
         log.push(Ev::TAccept { t, inc, peer: peer.to_string() });
@@ -210,6 +263,10 @@ async fn target_program(log: Log<Ev>, t: usize, inc: u32, p: TProbe, s: Scn) -> 
                 }
                 if st.read_exact(&mut b).await.is_err() {
                     break;
+                }
+                if u64::from_le_bytes(b) == u64::MAX - 1 {
+                    // upload: never read again, the peer's writer runs into the window
+                    std::future::pending::<()>().await;
                 }
                 if u64::from_le_bytes(b) == u64::MAX {
                     // bulk download: write until the peer goes away (window-limited)
@@ -226,6 +283,7 @@ async fn target_program(log: Log<Ev>, t: usize, inc: u32, p: TProbe, s: Scn) -> 
 }
 
 const BULK: usize = 1000;
+const UPLOAD: usize = 1001;
 
 async fn peer1_program(log: Log<Ev>, s: Scn) -> turmoil::Result {
     if let Some((at, gap)) = s.bulk {
@@ -261,6 +319,66 @@ async fn peer1_program(log: Log<Ev>, s: Scn) -> turmoil::Result {
                         return;
                     }
                 }
+            }
+        });
+    }
+    if let Some(at) = s.upload {
+        let log = log.clone();
+        tokio::task::spawn_local(async move {
+            tokio::time::sleep(Duration::from_millis(at)).await;
+            log.push(Ev::ConnCall { c: UPLOAD });
+            let mut st = match TcpStream::connect(("t0", 7000)).await {
+                Ok(st) => {
+                    log.push(Ev::ConnOk { c: UPLOAD, local: st.local_addr().map(|a| a.to_string()).unwrap_or_default() });
+                    st
+                }
+                Err(e) => {
+                    log.push(Ev::ConnErr { c: UPLOAD, kind: format!("{:?}", e.kind()) });
+                    return;
+                }
+            };
+            if st.write_all(&(u64::MAX - 1).to_le_bytes()).await.is_err() {
+                log.push(Ev::Unblocked { c: UPLOAD, how: "write".into() });
+                return;
+            }
+            loop {
+                match st.write_all(&[9u8; 64]).await {
+                    Ok(()) => log.push(Ev::UpWrote),
+                    Err(e) => {
+                        log.push(Ev::Unblocked { c: UPLOAD, how: format!("write:{:?}", e.kind()) });
+                        return;
+                    }
+                }
+            }
+        });
+    }
+    if !s.dials.is_empty() {
+        let log = log.clone();
+        let lis = TcpListener::bind(("0.0.0.0", 7200)).await?;
+        tokio::task::spawn_local(async move {
+            let mut k = 0usize;
+            loop {
+                let Ok((mut st, peer)) = lis.accept().await else { continue };
+                log.push(Ev::PAccept { k, peer: peer.to_string() });
+                let log = log.clone();
+                tokio::task::spawn_local(async move {
+                    let mut b = [0u8; 8];
+                    loop {
+                        log.push(Ev::PInRead { k });
+                        match st.read_exact(&mut b).await {
+                            Ok(_) => log.push(Ev::PGot { k }),
+                            Err(e) => {
+                                log.push(Ev::PUnblocked { k, how: format!("read:{:?}", e.kind()) });
+                                return;
+                            }
+                        }
+                        if let Err(e) = st.write_all(&b).await {
+                            log.push(Ev::PUnblocked { k, how: format!("write:{:?}", e.kind()) });
+                            return;
+                        }
+                    }
+                });
+                k += 1;
             }
         });
     }
@@ -439,6 +557,9 @@ fn execute(s: &Scn) -> Exec {
             .max_message_latency(Duration::from_millis(s.lat_ms))
             .tcp_capacity(s.tcp_cap)
             .simulation_duration(Duration::from_secs(100_000));
+        if s.tokio_io {
+            b.enable_tokio_io();
+        }
         let mut sim = b.build();
         let nt = if s.two_targets { 2 } else { 1 };
         let probes: Vec<TProbe> = (0..nt).map(|_| TProbe::default()).collect();
@@ -749,8 +870,8 @@ fn check(s: &Scn, ex: &Exec, twin_iso: &[String], base_steps: u64, out: &mut Sce
         let after: Vec<&(u64, u64, Ev)> = ex.evs.iter().filter(|(q, _, _)| *q > cq).collect();
         let think_max = s.conn_times.iter().map(|x| x.1).max().unwrap_or(0);
         for (c, (st, q)) in &state {
-            if *c == BULK {
-                continue; // judged separately (needs time to drain)
+            if *c == BULK || *c == UPLOAD {
+                continue; // judged separately
             }
             out.saw("stream_states_at_crash", st.to_string());
             let unb = after.iter().find_map(|(_, stp, e)| match e {
@@ -842,6 +963,85 @@ fn check(s: &Scn, ex: &Exec, twin_iso: &[String], base_steps: u64, out: &mut Sce
                             "peer-not-unblocked",
                             format!("C04|peer-not-unblocked|bulk|{kind}"),
                             format!("bulk reader (tcp_capacity {}, {} ms between reads) was mid-transfer when t0 crashed after step {cstep}; expected EOF/reset by step {bound} after draining, observed {other:?}", s.tcp_cap, gap),
+                            desc.clone(),
+                        )
+                    }
+                }
+            }
+        }
+    }
+    // an uploader parked on a full window when t0 crashes (t0 never read from the stream)
+    // must get an error, not hang
+    if let (Some((cq, cstep, _)), Some(_)) = (first_down, s.upload) {
+        let established = ex.evs.iter().any(|(q, _, e)| *q < cq && matches!(e, Ev::ConnOk { c, .. } if *c == UPLOAD));
+        let ended_before = ex.evs.iter().any(|(q, _, e)| *q < cq && matches!(e, Ev::Unblocked { c, .. } if *c == UPLOAD));
+        if established && !ended_before {
+            out.count("uploads_open_at_crash", 1);
+            let last_write = ex.evs.iter().filter(|(q, _, e)| *q < cq && matches!(e, Ev::UpWrote)).map(|x| x.1).last().unwrap_or(0);
+            let parked = last_write + 2 * lat_steps + 3 < cstep;
+            if parked {
+                out.count("upload_writers_parked_on_full_window_at_crash", 1);
+            }
+            // segments written after the crash are answered with a reset one round trip later
+            let bound = cstep + 2 * lat_steps + 6;
+            let unb = ex.evs.iter().find_map(|(q, st, e)| match e {
+                Ev::Unblocked { c, how } if *c == UPLOAD && *q > cq => Some((*st, how.clone())),
+                _ => None,
+            });
+            match unb {
+                Some((st, _)) if st <= bound => out.count("upload_writers_unblocked", 1),
+                // a writer that still had credit at the crash instant was not waiting; what it
+                // writes afterwards reaches the host while it is down and may stay pending
+                // until the host is bounced (quantifier text): not judged
+                _ if !parked => out.count("upload_writers_with_credit_at_crash_not_judged", 1),
+                other => {
+                    if s.steps > bound {
+                        out.violate(
+                            "peer-not-unblocked",
+                            format!("C04|peer-not-unblocked|upload-parked-in-write|{kind}"),
+                            format!("uploader (tcp_capacity {}, last completed write in step {last_write}) had an established stream to t0 when it crashed after step {cstep}; expected a write error by step {bound}, observed {other:?}", s.tcp_cap),
+                            desc.clone(),
+                        )
+                    }
+                }
+            }
+        }
+    }
+    // streams the target dialled itself: the accepting peer must be unblocked as well
+    if let Some((cq, cstep, _)) = first_down {
+        let mut open: BTreeMap<usize, u64> = BTreeMap::new();
+        for (q, st, e) in &ex.evs {
+            if *q > cq {
+                break;
+            }
+            match e {
+                Ev::PAccept { k, .. } => {
+                    open.insert(*k, *st);
+                }
+                Ev::PUnblocked { k, .. } => {
+                    open.remove(k);
+                }
+                _ => {}
+            }
+        }
+        for (k, acc_step) in open {
+            out.count("target_dialled_streams_open_at_crash", 1);
+            if acc_step == cstep {
+                out.count("target_dialled_streams_accepted_in_the_crash_step", 1);
+            }
+            let bound = cstep + lat_steps + 3;
+            let unb = ex.evs.iter().find_map(|(q, st, e)| match e {
+                Ev::PUnblocked { k: kk, how } if *kk == k && *q > cq => Some((*st, how.clone())),
+                _ => None,
+            });
+            match unb {
+                Some((st, _)) if st <= bound => out.count("target_dialled_streams_unblocked", 1),
+                other => {
+                    if s.steps > bound {
+                        out.violate(
+                            "peer-not-unblocked",
+                            format!("C04|peer-not-unblocked|accepted-from-target{}|{kind}", if acc_step == cstep { "-in-crash-step" } else { "" }),
+                            format!("p1 accepted stream #{k} from t0 in step {acc_step} and was reading from it when t0 crashed after step {cstep}; expected EOF/reset by step {bound}, observed {other:?}"),
                             desc.clone(),
                         )
                     }
@@ -945,6 +1145,9 @@ fn base(seed: u64) -> Scn {
         tcp_cap: r.pick_copy(&[8usize, 12, 64]), // > number of concurrent connectors (pending SYNs >= capacity is a documented panic)
         bulk: if r.chance(0.6) { Some((r.range(2, 20), r.pick_copy(&[1u64, 3, 6]))) } else { None },
         slow_ms: r.pick_copy(&[0u64, 0, 2, 5]),
+        upload: if r.chance(0.5) { Some(r.range(2, 25)) } else { None },
+        dials: (0..r.range(0, 3)).map(|_| (r.range(1, 45), r.pick_copy(&[0u64, 2, 7]))).collect(),
+        tokio_io: r.chance(0.3),
         inject: Inject::None,
     }
 }
@@ -1065,6 +1268,6 @@ fn fin() -> Finish<'static> {
             "prompt = latency + 2 steps for parked readers, 2 steps for queued connectors".into(),
         ],
         min_distinct: 10,
-        required_counters: vec!["crash_points", "bounces", "peers_parked_in_read_at_crash", "peers_unblocked_promptly", "queued_connectors_refused", "handshakes_in_flight_at_crash", "stale_syns_refused", "datagrams_reaching_down_host", "rebinds_after_bounce", "down_step_observations", "isolated_pair_events_compared", "regex_multi_host_workloads", "regex_crash_with_one_target_already_down", "bulk_streams_ended_after_crash"],
+        required_counters: vec!["crash_points", "bounces", "peers_parked_in_read_at_crash", "peers_unblocked_promptly", "queued_connectors_refused", "handshakes_in_flight_at_crash", "stale_syns_refused", "datagrams_reaching_down_host", "rebinds_after_bounce", "down_step_observations", "isolated_pair_events_compared", "regex_multi_host_workloads", "regex_crash_with_one_target_already_down", "bulk_streams_ended_after_crash", "uploads_open_at_crash", "upload_writers_parked_on_full_window_at_crash", "target_dialled_streams_open_at_crash", "target_dialled_streams_accepted_in_the_crash_step"],
     }
 }
